@@ -136,13 +136,14 @@ def body(ctx, case):
             # the reference measures in floats (it returns one); coordinates that are not floats to begin with
             # (integers beyond 2^53) are outside what it can measure, so only the exact oracle judges them
             representable = all(F(float(c)) == F(c) for p_ in original for c in p_)
-            if representable and extent < F(10) ** 150 and not (isinstance(ref, (int, float)) and ref == ref):
-                # no products of these coordinates overflow, so the measurement is a number; NaN (or no number at
-                # all) compares False with every tolerance and silently disagrees with the predicate
+            if representable and extent < F(10) ** 150 and not (isinstance(ref, (int, float)) and
+                                                                math.isfinite(ref)):
+                # no products of these coordinates overflow, so the measurement is a finite number; NaN, infinity (or
+                # no number at all) silently disagrees with the predicate
                 ctx.record(case, classes, deleted > 0)
                 ctx.fail("max_dist_from_n_points(%r) = %r, the exact maximum distance is %.17g (points_in_tolerance "
                          "with tolerance %r says %r)" % (case["points"], ref, math.sqrt(float(d2)), tol, fast), case)
-            if isinstance(ref, float) and not math.isnan(ref) and representable:
+            if isinstance(ref, float) and math.isfinite(ref) and representable:
                 ref_band = abs(F(ref) ** 2 - t2) <= 4 * rel * max(d2, t2)
                 if not ref_band and (ref < tol) != bool(fast):
                     ctx.record(case, classes, deleted > 0)
